@@ -145,6 +145,9 @@ func (s *c11State) expect(e *c11Err, row *c11Row) {
 // failing callback: returns a fresh unique error on some invocations
 func (s *c11State) callback(src int, period int) tabular.PropertyCallback {
 	n := 0
+	// a third of the callbacks record their finding through the error API of the live row or table they were
+	// handed (a validator with several findings per row has to: UpdateProperties returns one error) instead of returning it
+	ownAPI := (src+s.salt)%3 == 0
 	return cbFunc(func(o tabular.PropertyOwner) error {
 		n++
 		s.cbEvents++
@@ -157,6 +160,18 @@ func (s *c11State) callback(src int, period int) tabular.PropertyCallback {
 		}
 		e := s.raise(src, what)
 		s.expect(e, s.dest)
+		if ownAPI {
+			switch x := o.(type) {
+			case *tabular.Row:
+				s.c.Rec.Count("errors_recorded_from_inside_a_callback_through_the_live_row's_AddError", 1)
+				x.AddError(e.err)
+				return nil
+			case *tabular.ATable:
+				s.c.Rec.Count("errors_recorded_from_inside_a_callback_through_the_live_table's_AddError", 1)
+				x.AddError(e.err)
+				return nil
+			}
+		}
 		return e.err
 	})
 }
